@@ -3,6 +3,7 @@
 mod drv_br;
 mod drv_flow;
 mod drv_head;
+mod drv_redir;
 mod flowbox;
 mod drv_req;
 mod fx;
@@ -51,6 +52,8 @@ fn main() {
         "c09" => extra = drv_flow::c09(&o, &mut t),
         "c10" => extra = drv_flow::c10(&o, &mut t),
         "c11" => extra = drv_flow::c11(&o, &mut t),
+        "c13" | "c14" => extra = drv_redir::c13_14(&o, &mut t),
+        "c15" => extra = drv_redir::c15(&o, &mut t),
         "c02" => extra = drv_req::c02(&o, &mut t),
         "c16" => extra = drv_req::c16(&o, &mut t),
         "c17" => extra = drv_req::c17(&o, &mut t),
